@@ -2,7 +2,7 @@
     Only statements here; proofs are in Fmt/VpkDirProofs.v, Fmt/VpkNameProofs.v and SM/VpkProofs.v. *)
 From Coq Require Import List NArith Bool Permutation.
 From SV Require Import Fmt.VpkDir Fmt.VpkDirProofs Fmt.VpkName Fmt.VpkNameSplit Fmt.VpkNameProofs SM.Vpk SM.VpkProofs.
-From SV Require Import Fmt.VpkArchName Fmt.VpkArchNameProofs.
+From SV Require Import Fmt.VpkArchName Fmt.VpkArchNameProofs SM.VpkRefine.
 Import ListNotations.
 Open Scope N_scope.
 
@@ -127,3 +127,51 @@ Theorem c13_arch_names_rstrip_refuted :
   /\ site_name c f (n_writer c) 0 = Some ([119; 111; 114; 108; 100; 95; 48; 48; 48] ++ s_vpk)
   /\ site_name c f reader_rstrip 0 = Some ([119; 111; 114; 108; 95; 48; 48; 48] ++ s_vpk).
 Proof. exact arch_names_rstrip_refuted. Qed.
+
+(** ---- the whole-history statement (SM/VpkRefine.v: invariant + induction over the operation list) ---- *)
+
+(** [vpk_refines_map].  For every configuration that validates archive indexes and names (the generated one does:
+    instance obligation), every sequence of new_file / add_file / FileInfo.write / del / write_dirfile / reopen('r'|'w'|'a')
+    on a fresh archive, for every placement, dir_limit and size: if no write_dirfile raises struct.error ([run] is not
+    [None]) and the data values of the history, together with the empty string, do not collide under the checksum
+    (FileInfo.write skips a write whose checksum equals the stored one), then every operation returns the result code of the
+    specification map, and afterwards the archive is in the same mode, lists exactly the names of the map, and every file
+    reads back exactly the map's bytes and passes verify(). *)
+Theorem c13_vpk_refines_map : forall crc cf, vcfg_ok cf = true -> forall ops st codes,
+  collision_free crc ops ->
+  run crc cf init ops = Some (st, codes) ->
+  let '(s, scodes) := srun cf sinit ops in
+  codes = scodes /\ md st = smd s /\ Permutation (map fst (tbl st)) (map fst (cur s)) /\
+  forall k, match alookup k (tbl st), alookup k (cur s) with
+            | Some i, Some d => read_info st i = d /\ verify_info crc st i = true
+            | None, None => True
+            | _, _ => False
+            end.
+Proof. exact vpk_refines_map. Qed.
+
+(** The property's observation point: any history that leaves the archive writable, then write_dirfile, then reopening in
+    'r' or 'a' mode: both succeed, and the reopened archive lists exactly the files that should exist, each reading back
+    the bytes last written to it and verifying. *)
+Theorem c13_history_save_reopen : forall crc cf, vcfg_ok cf = true -> forall ops m st codes,
+  m <> MW -> collision_free crc ops ->
+  run crc cf init (ops ++ [OSave; OReopen m]) = Some (st, codes) ->
+  let '(s0, c0) := srun cf sinit ops in
+  writable (smd s0) = true ->
+  codes = c0 ++ [rOk; rOk] /\ md st = m /\ Permutation (map fst (tbl st)) (map fst (cur s0)) /\
+  forall k, match alookup k (tbl st), alookup k (cur s0) with
+            | Some i, Some d => read_info st i = d /\ verify_info crc st i = true
+            | None, None => True
+            | _, _ => False
+            end.
+Proof. exact vpk_history_save_reopen. Qed.
+
+(** The collision premise is decidable on a concrete history ... *)
+Theorem c13_collision_freeb_sound : forall crc ops, collision_freeb crc ops = true -> collision_free crc ops.
+Proof. exact collision_freeb_sound. Qed.
+
+(** ... and the premises are satisfiable: the example history (all four placements, an overwrite, save, reopen) with the
+    real CRC-32. *)
+Theorem c13_refines_premises_satisfiable :
+  vcfg_okb ex_cfg = true /\ collision_freeb crc32 ex_ops = true
+  /\ match run crc32 ex_cfg init ex_ops with Some _ => true | None => false end = true.
+Proof. exact refines_example. Qed.
